@@ -102,7 +102,7 @@ def main():
         for bi, (bname, text) in enumerate(batches):
             inp = os.path.join(work, f'{bname}.in')
             open(inp, 'w').write(text)
-            variant = P.variant_for(bname)
+            variant = P.variant_for(P.replay_batch(text) if bname == 'replay' and hasattr(P, 'replay_batch') else bname)
             rc_i, out_i, dt_i = C.run_impl(exes[variant], inp, inp[:-3] + '.impl', timeout=getattr(P, 'impl_timeout', 900), env_extra=P.env_for(bname))
             rc_m, out_m, dt_m = C.run_model(inp, inp[:-3] + '.model')
             log.append(f'[run] {bname}: impl rc={rc_i} {dt_i:.1f}s, model rc={rc_m} {dt_m:.1f}s')
